@@ -88,7 +88,7 @@ structure Ctx where
   decisions : List Nat               -- cyclic decision list of this supervisor
   decIdx : Nat
   jobs : List (String × String)      -- scheduler: reference ↦ job key (`jobKeys`)
-  hooks : Nat                        -- bit 0: provider; bit 1: OnPrelaunch fails on restart; bit 2: OnRestarted fails; bit 3: PreRestart panics
+  hooks : Nat                        -- bit 0: provider; bit 1: OnPrelaunch fails on restart; bit 2: OnRestarted fails; bit 3: PreRestart panics, bit 5: PreRestart returns an error (both recorded, the restart goes on); bit 4: the first OnPrelaunch fails
   deriving Repr
 
 structure Sys where
